@@ -200,7 +200,7 @@ class IncSolver:
         self.time += dt
         self.nchecks += 1
         if timeout_ms > 500 and r != z3.unsat:
-            SLOW[0] -= 1
+            INC_OPEN[0] += 1
         return r
 
 
@@ -309,7 +309,9 @@ HARD_HITS = 0
 # does so in milliseconds; a mutated function would otherwise burn every time-out of every open
 # obligation in turn).  Reset by verify_contract.
 SLOW = [12]
-RL_OB_INC = 9_000_000            # incremental obligation check (largest passing one on the pinned tree: 2.7M)
+INC_OPEN = [0]                   # obligations the incremental solver left open in this task (reset by verify_contract)
+INC_OPEN_MAX = 60                # beyond this many, further obligations of the task get only the small feasibility budget in-line
+RL_OB_INC = 4_000_000            # incremental obligation check; what it leaves open goes to the standalone query
 RL_OB_EMATCH = 400_000_000       # standalone E-matching query (largest passing one: 125M)
 WALL_SAFETY_MS = 300_000
 
